@@ -41,6 +41,18 @@ package main
 //@   modifies *l
 //@   ensures err == nil && len(*l) == split_n(v, ",") && (forall i int :: 0 <= i && i < len(*l) ==> (*l)[i] == split_i(v, ",", i))
 
+// rateFlag.String: the rate is printed as "<count>/<period>" with the period in time.Duration's own
+// notation - the form Set reads back (usage text, -h defaults).
+//@ func (*rateFlag).String
+//@   property C19
+//@   requires [non-nil] f != nil
+//@   modifies nothing
+//@   ghost out string
+//@   before call Sprintf: assert [printed-as-count-slash-period-the-form-Set-reads] arg0 == "%d/%s" && len(arg1) == 2 && arg1[0] == boxof(f.Rate.Freq) && arg1[1] == boxof(f.Rate.Per)
+//@   at call Sprintf: ghost out = result
+//@   ensures [nothing-for-an-unset-flag] f.Rate == nil ==> result == ""
+//@   ensures [exactly-what-was-formatted] f.Rate != nil ==> result == out
+
 //@ func (*maxBodyFlag).Set
 //@   property C19 C16 C06
 //@   returns (err)
@@ -107,7 +119,7 @@ package main
 //@     invariant fresh(decs) && fresh(closer)
 
 //@ func encode
-//@   property C13 C08 C07 C09
+//@   property C13 C08 C07 C09 C05
 //@   returns (err)
 //@   requires [at-least-one-file] len(files) >= 1
 //@   ghost n int = 0
@@ -279,6 +291,8 @@ package main
 //@   at call Add: assert [adds-the-record-just-decoded] rec(arg1) == ditem(d, n) && !closedPlot ; ghost n = n + 1
 //@   at call Close: ghost closedPlot = true
 //@   before call Label: assert [series-are-split-by-the-error-field] fname(arg0) == "ErrorLabeler"
+//@   before call Downsample: assert [threshold-and-title-forwarded-unchanged] arg0 == old(threshold)
+//@   before call Title: assert [threshold-and-title-forwarded-unchanged] arg0 == old(title)
 //@   ghost e1 ref = 0
 //@   ghost e2 ref = 0
 //@   ghost e3 ref = 0
